@@ -20,7 +20,7 @@ pub fn property_c05() -> Property {
         rule: Box::leak(format!("{}; oracle = byte diff through raw pointers: every changed byte must be dirty in the owning bitmap at the region's own offset; non-trivial = write at a composed offset that is not page aligned in a sliced bitmap, page-straddling or region-straddling write, chain depth >= 2, write after a reset, or a failing descriptor read; distinct = decoded (level, page sizes, history)", GEN).into_boxed_str()),
         assumptions: &["writes through raw pointers / references (ptr_guard, aligned_as_mut, get_atomic_ref used directly) are exempt by documentation and not generated"],
         subchecks: vec![
-            SubCheck { name: "bare", builds: &[Build::Std], kind: Kind::Random { quick: 30_000, thorough: 1_500_000, max_words: 200 }, run: s_bare },
+            SubCheck { name: "bare", builds: &[Build::Std, Build::Xen], kind: Kind::Random { quick: 30_000, thorough: 1_500_000, max_words: 200 }, run: s_bare },
             SubCheck { name: "region", builds: &[Build::Std], kind: Kind::Random { quick: 10_000, thorough: 500_000, max_words: 200 }, run: s_region },
             SubCheck { name: "guest", builds: &[Build::Std], kind: Kind::Random { quick: 10_000, thorough: 500_000, max_words: 200 }, run: s_guest },
         ],
@@ -33,7 +33,7 @@ pub fn property_c16() -> Property {
         rule: Box::leak(format!("{}; oracle = full bitmap snapshot before/after every operation: newly dirty pages must overlap the bytes the operation wrote (a failing descriptor read may mark its whole target), read-type and rejected operations add none, dirty pages stay dirty without a reset; non-trivial = write ending exactly at a page end or one byte into the next page, page-straddling write, read-type operation, rejected request, failing descriptor read, or an operation after a reset; distinct = decoded (level, page sizes, history)", GEN).into_boxed_str()),
         assumptions: &["the written range of an operation is computed by the harness from the documented transfer semantics (checked independently by C03/C04)"],
         subchecks: vec![
-            SubCheck { name: "bare", builds: &[Build::Std], kind: Kind::Random { quick: 30_000, thorough: 1_500_000, max_words: 200 }, run: p_bare },
+            SubCheck { name: "bare", builds: &[Build::Std, Build::Xen], kind: Kind::Random { quick: 30_000, thorough: 1_500_000, max_words: 200 }, run: p_bare },
             SubCheck { name: "region", builds: &[Build::Std], kind: Kind::Random { quick: 10_000, thorough: 500_000, max_words: 200 }, run: p_region },
             SubCheck { name: "guest", builds: &[Build::Std], kind: Kind::Random { quick: 10_000, thorough: 500_000, max_words: 200 }, run: p_guest },
         ],
